@@ -1,6 +1,7 @@
 package core
 
 import (
+	"go/constant"
 	"go/token"
 	"go/types"
 
@@ -464,10 +465,54 @@ func CmpFactsOf(bfs []BoolFact) []Fact {
 					op = negate(op)
 				}
 				out = append(out, Fact{Op: op, X: b.X, Y: b.Y})
+				// (a - c) op k  =>  a op (k + c), (a + c) op k  =>  a op (k - c): signed integers, small constants
+				// (`last := len(x) - 1; if last < 0 { return }` says len(x) >= 1 on the other edge)
+				if d, ok := shiftedFact(op, b.X, b.Y); ok {
+					out = append(out, d)
+				} else if d, ok := shiftedFact(flipCmpTok(op), b.Y, b.X); ok {
+					out = append(out, d)
+				}
 			}
 		}
 	}
 	return out
+}
+
+func flipCmpTok(op token.Token) token.Token {
+	switch op {
+	case token.LSS:
+		return token.GTR
+	case token.LEQ:
+		return token.GEQ
+	case token.GTR:
+		return token.LSS
+	case token.GEQ:
+		return token.LEQ
+	}
+	return op
+}
+
+// shiftedFact: x is `a - c` or `a + c` (signed integer, |c| <= 1<<20), y a constant k: the fact about a itself.
+func shiftedFact(op token.Token, x, y ssa.Value) (Fact, bool) {
+	k, isK := ConstInt(y)
+	bo, isB := x.(*ssa.BinOp)
+	if !isK || !isB || (bo.Op != token.SUB && bo.Op != token.ADD) {
+		return Fact{}, false
+	}
+	bt, isBasic := bo.Type().Underlying().(*types.Basic)
+	if !isBasic || bt.Info()&types.IsInteger == 0 || bt.Info()&types.IsUnsigned != 0 {
+		return Fact{}, false
+	}
+	c, isC := ConstInt(bo.Y)
+	if !isC || c > 1<<20 || c < -(1<<20) || k > 1<<40 || k < -(1<<40) {
+		return Fact{}, false
+	}
+	if bo.Op == token.SUB {
+		k += c
+	} else {
+		k -= c
+	}
+	return Fact{Op: op, X: bo.X, Y: ssa.NewConst(constant.MakeInt64(k), bo.Type())}, true
 }
 
 // SoleCallSite returns the single instruction of the parent (or an enclosing
